@@ -36,8 +36,13 @@ def relaxations(rng, base, small=False):
     out.append(("larger-memory", (t, {}), (l, {})))
     # 2 smaller keep set
     t = copy.deepcopy(p); l = copy.deepcopy(p)
-    if p["workload"].get("N_EINSUMS", 1) > 1 and rng.random() < 0.5:
-        t["mm_keep"], l["mm_keep"] = "All", "~Intermediates"
+    if p["workload"].get("N_EINSUMS", 1) > 1:
+        # the mapper requires that some memory is REQUIRED to hold every tensor (it raises "pmapping template … missing tensors"
+        # otherwise, which it documents as a spec error): keep the intermediates required on both sides
+        if rng.random() < 0.5:
+            t["mm_keep"], l["mm_keep"] = "All", "~Intermediates"
+        else:
+            t["glb_keep"], l["glb_keep"] = "All", "~MainMemory"
     else:
         t["glb_keep"], l["glb_keep"] = rng.choice([("All", "~MainMemory"), ("~MainMemory", "Nothing"), ("Inputs", "Nothing"), ("All", "Outputs")])
     out.append(("smaller-keep", (t, {}), (l, {})))
